@@ -11,6 +11,8 @@
    REPRESENTATION: values stay `str`.  A keyword value with deferred objects inside is a TEMPLATE: the canonical
    string of the container in which every deferred object is written as the marker  \001 1^id \002  (id in unary).
    Substituting every marker by the evaluated value of its node gives exactly canon(evaluate_lazy(value)).
+   A tuple is written like a list with the extra character \003 after the bracket (dropped by the substitution): the
+   cache key distinguishes lists from tuples, the canonical value does not.
    Markers at bracket depth <= 1 get an edge (add_edge), deeper ones do not; all of them are dependencies.
    Plain strings inside templates must not contain '[' ']' or the two marker characters (generator guarantee). *)
 From Verif Require Import Base.Prelude Base.StrOrd Base.Graph Model.Pipe Model.Lazy Model.LazySeq.
@@ -20,7 +22,8 @@ Definition mclose : ascii := ascii_of_nat 2.
 Definition mk_ref (id : nat) : str := mopen :: repeat "1"%char id ++ [mclose].
 
 (* a keyword value of a request: a string, the result of the j-th earlier request, or a list/tuple of such *)
-Inductive kwval := KStr (v : str) | KRes (j : nat) | KList (l : list kwval).
+Inductive kwval := KStr (v : str) | KRes (j : nat) | KList (tup : bool) (l : list kwval).
+Definition mtuple : ascii := ascii_of_nat 3.    (* marks a tuple: a list and a tuple of the same items are different cache keys *)
 
 (* res: what the earlier requests returned (None: failed, or a full_output dict - then the harness passes "none") *)
 Fixpoint tmpl (res : list (option larg)) (v : kwval) : str :=
@@ -31,7 +34,7 @@ Fixpoint tmpl (res : list (option larg)) (v : kwval) : str :=
               | Some (AVal x) => x
               | None => s "none"
               end
-  | KList l => s "[" ++ Sym.commas (map (tmpl res) l) ++ s "]"
+  | KList tup l => s "[" ++ (if tup then [mtuple] else []) ++ Sym.commas (map (tmpl res) l) ++ s "]"
   end.
 
 (* the marker ids of a template that sit at bracket depth <= maxd *)
@@ -88,6 +91,7 @@ Section EvalT.
             else subst rec t (Some (S n)) st acc
         | None =>
             if Ascii.eqb c mopen then subst rec t (Some 0) st acc
+            else if Ascii.eqb c mtuple then subst rec t None st acc          (* canon(tuple) = canon(list) *)
             else subst rec t None st (acc ++ [c])
         end
     end.
